@@ -252,9 +252,11 @@ def main():
                     entry['suite'] = t.stdout.strip()
                 for c in checks:
                     t0 = time.time()
-                    r = sh('cd /verif && XSMON_OUT=/verif/work/dm ./run %s quick 2>&1 | grep -E "signature|-> exit|INCONCLUSIVE" | tail -12' % c)
+                    r = sh('cd /verif && XSMON_OUT=/verif/work/dm ./run %s quick 2>&1 | grep -E "signature|-> exit|INCONCLUSIVE|HARNESS-ERROR" | tail -12' % c)
                     lines = r.stdout.strip().splitlines()
                     sigs = [l.split('signature: ')[1] for l in lines if 'signature: ' in l]
+                    if any('HARNESS-ERROR' in l for l in lines):
+                        entry.setdefault('harness_errors', []).append(c)
                     verdict = 'detected' if (any('exit 1' in l for l in lines) or sigs) else ('inconclusive' if any('exit 2' in l for l in lines) else 'missed')
                     entry['checks'][c] = {'verdict': verdict, 'signatures': sigs[:3], 'secs': round(time.time() - t0, 1)}
                 entry['status'] = 'detected' if any(v['verdict'] == 'detected' for v in entry['checks'].values()) else 'MISSED'
